@@ -158,6 +158,13 @@ pub fn gen_tcp_stream(profile: &str, name: &str, rng: &mut SmallRng) -> Stream {
                     frames.push(if rng.gen_bool(0.5) { loud_probe(rng, opq) } else { Frame::consistent(0x0b, &[], &[], &[], opq, 0) });
                 }
             }
+            // every other stream ends with quit: everything answered before it must still reach a client that reads late,
+            // although the server closes the connection right after the last answer
+            let idx: usize = name.rsplit('-').next().and_then(|x| x.parse().ok()).unwrap_or(0);
+            if idx % 2 == 0 {
+                opq += 1;
+                frames.push(Frame::consistent(0x07, &[], &[], &[], opq, 0));
+            }
         }
         "twrap" => {
             // a command that carries no value announcing extras + key + n * 65536 bytes (within a 1 MiB limit): lengths that
